@@ -350,7 +350,16 @@ impl Layout {
                 let ind = indent_unit.repeat(d as usize);
                 if let Some(alt) = alt {
                     gaps.push(format!("{nl}{ind}"));
-                    pieces.push(Piece { kind: PieceKind::Directive, text: if rng.chance(1, 5) { "{$else}".into() } else { "{$ELSE}".into() }, verbatim: false });
+                    // `{$IFEND}` closes a `{$IF`: the alternative may then be an `{$ELSEIF expr}` whose expression
+                    // holds comment closers inside string literals
+                    let alt_dir: String = if text == "{$IFEND}" && rng.bool() {
+                        (*rng.pick(&["{$ELSEIF Defined(FOO)}", "{$ELSEIF BraceStyle = '}'}", "{$elseif (Mode = '{') or (Mode = '}')}", "{$ELSEIF Declared(X) and (S <> '*)')}", "{$ElseIf Defined(A) and (Sep = '}{')}"])).to_string()
+                    } else if rng.chance(1, 5) {
+                        "{$else}".into()
+                    } else {
+                        "{$ELSE}".into()
+                    };
+                    pieces.push(Piece { kind: PieceKind::Directive, text: alt_dir, verbatim: false });
                     directive_trailing_comment(rng, deco, &mut pieces, &mut gaps);
                     for (k, w) in alt.iter().enumerate() {
                         gaps.push(if k == 0 { format!("{nl}{ind}") } else if matches!(*w, "(" | ")" | ";" | ":") { String::new() } else { " ".to_string() });
@@ -399,6 +408,7 @@ impl Layout {
                     let open = match rng.below(5) {
                         0 => format!("{{$ifdef {name}}}"),
                         1 => format!("{{$IFNDEF {name}}}"),
+                        2 if rng.chance(1, 3) => format!("{{$IF (Brace = '}}') or Defined({name})}}"),
                         2 => format!("{{$IF Defined({name}) and (CompilerVersion >= 30)}}"),
                         3 => (*rng.pick(&["(*$IFDEF {}*)", "(*$ifdef {}*)", "(*$IfNDef {}*)", "(*$if Defined({})*)"])).replace("{}", name),
                         _ => format!("{{$IFDEF {name}}}"),
